@@ -273,6 +273,24 @@ func runC09(rc *RunCtx) {
 			node := rc.W.Mints["A"]
 			rc.S.BeginEpisode(&FaultPlan{Node: "A", Kind: "db_error", SeamKind: "db", Pos: k})
 			rc.S.Run1(m.name("irot"), node.Inc, func() { node.M.RotateKeyset(uint(fee)) })
+			if T.Chance("rot.retry", 1, 2) {
+				// the operator retries the rotation on the running mint, with another fee, before
+				// restarting: whatever the retry does, what the mint publishes afterwards must
+				// survive the restart unchanged
+				fee2 := c09Fees[T.Choose("rot.rfee", len(c09Fees))]
+				var rerr error
+				rc.S.BeginEpisode()
+				rc.S.Run1(m.name("irot.retry"), node.Inc, func() { _, rerr = node.M.RotateKeyset(uint(fee2)) })
+				rc.S.Probe("c09_rotation_retried")
+				if rerr == nil {
+					rc.S.Probe("c09_rotation_retry_succeeded")
+					fee = fee2
+					m.keysCacheStale = true // GET /v1/keys is cached for 30 s across a runtime rotation
+				}
+				rc.Quietly(func() { rc.W.RefreshKeysets("A", fee) })
+				rc.W.Book.NoteRotation("A", r0)
+				view = m.KeysetAudit("A", view, "retried rotation")
+			}
 			rc.Quietly(func() {
 				if err := rc.W.RestartMint("A", nil); err != nil {
 					rc.W.Book.Violate("C09.load_fails", "interrupted rotation", "mint does not load after an interrupted rotation: %v", err)
